@@ -387,6 +387,9 @@ pub fn register_host(ctx: &mut Context, name: &str, sig: &[&str], body: &Body, l
         ["pos-value", "ident"] => host!(ctx, name, log, body; a: V, b: Identifier),
         ["this-value", "ident", "expr"] => host!(ctx, name, log, body; a: This<V>, b: Identifier, c: Expression),
         ["this-value", "args"] => host!(ctx, name, log, body; a: This<V>, b: Arguments),
+        ["pos-value", "this-value"] => host!(ctx, name, log, body; a: V, b: This<V>),
+        ["pos-value", "this-value", "pos-value"] => host!(ctx, name, log, body; a: V, b: This<V>, c: V),
+        ["pos-int", "this-str"] => host!(ctx, name, log, body; a: i64, b: This<Str>),
         ["ftx"] => host_ftx!(ctx, name, log, body;),
         ["ftx", "pos-value"] => host_ftx!(ctx, name, log, body; a: V),
         ["ftx", "this-value"] => host_ftx!(ctx, name, log, body; a: This<V>),
@@ -428,6 +431,9 @@ pub fn host_catalogue() -> Vec<Vec<&'static str>> {
         "pos-value ident",
         "this-value ident expr",
         "this-value args",
+        "pos-value this-value",
+        "pos-value this-value pos-value",
+        "pos-int this-str",
         "ftx",
         "ftx pos-value",
         "ftx this-value",
